@@ -92,7 +92,9 @@ def run_C01(ctx):
     t = [gen(ctx, b, "seq", ["file-gen", "-what", "seq", "-maxn", 9 if q else 30, "-wmax", 4 if q else 5]),
          gen(ctx, b, "seqk1", ["file-gen", "-what", "seq", "-maxn", 8 if q else 20, "-wmax", 3, "-k", 1]),
          gen(ctx, b, "writers", ["file-gen", "-what", "writers", "-maxn", 6 if q else 14, "-wmax", 3 if q else 4]),
-         gen(ctx, b, "random", ["file-gen", "-what", "random", "-count", 40 if q else 600, "-seed", ctx.seed])]
+         gen(ctx, b, "random", ["file-gen", "-what", "random", "-count", 40 if q else 600, "-seed", ctx.seed]),
+         # a writer that omits BlockSizes: child sizes come from Tsize or from opening the children
+         gen(ctx, b, "seq_nobs", ["file-gen", "-what", "seq", "-maxn", 7 if q else 16, "-wmax", 3, "-writer", "own-nobs"])]
     ctx.exhaustive = False
     decide(ctx, b, "TraceFile", FILE_INVS["C01"], t)
 
@@ -232,15 +234,23 @@ def run_mixed(pid, file_gens, dir_gens):
         vlib.model_check(ctx, "MCHamtRead", cfg_hamtread(2), name="MCHamtRead")
         ft, dt = [], []
         for what, qa, ta in file_gens:
-            ft.append(gen(ctx, b, "file_" + what, ["file-gen", "-what", what] + (qa if q else ta) + ["-seed", ctx.seed]))
+            ft.append(gen(ctx, b, "file_%s_%d" % (what, len(ft)), ["file-gen", "-what", what] + (qa if q else ta) + ["-seed", ctx.seed]))
         for what, qa, ta in dir_gens:
             dt.append(dgen(ctx, b, what, qa if q else ta))
         ctx.exhaustive = True
         decide(ctx, b, "TraceFile", FILE_INVS[pid], ft)
         decide(ctx, b, "TraceDir", DIR_INVS[pid], dt)
+        if pid == "C05":
+            # readers re-used across Seek/Read steps: every TLC history of depth 2 and long random histories
+            ht = hist_traces(ctx, b, [(5, 2, 3, 2, "own"), (7, 3, 2, 1, "boxo-balanced-pb-v1")], 2, (1, 2), opens=("direct",))
+            ht.append(gen(ctx, b, "randhist", ["file-gen", "-what", "randhist", "-count", 150 if q else 3000, "-seed", ctx.seed]))
+            decide(ctx, b, "TraceFile", FILE_INVS[pid], ht)
         if pid in PATH_PART:
             targets, invs = PATH_PART[pid]
             pt = [path_traces(ctx, b, targets, ["FALSE"], True, 4 if q else 1)]
+            if pid == "C06":
+                pt.append(path_traces(ctx, b, ["entity", "preload"], ["FALSE"], "consume", 24 if q else 3))
+                invs = invs + ["Inv_C06_Entity"]
             decide(ctx, b, "TracePath", invs, pt)
     return run
 
@@ -284,6 +294,7 @@ def run_C10(ctx):
     t = [bgen(ctx, b, "dirs", ["-fanouts", "8,256" if q else FAN_T, "-orders", 6 if q else 24, "-repeat", 3 if q else 20]),
          bgen(ctx, b, "frag", ["-maxn", 7 if q else 10, "-count", 10 if q else 200]),
          bgen(ctx, b, "misc", []),
+         bgen(ctx, b, "mixdir", ["-repeat", 3 if q else 12]),
          bgen(ctx, b, "files", ["-maxn", 6 if q else 12, "-wmax", 3, "-repeat", 2])]
     ctx.exhaustive = True
     decide(ctx, b, "TraceBuild", BUILD_INVS["C10"], t)
@@ -430,14 +441,15 @@ PATH_CFG = ("SPECIFICATION Spec\nCONSTANTS\n  Targets = {%s}\n  MPs = {%s}\nINVA
 
 def path_traces(ctx, b, targets, mps, passive, sample):
     cfg = PATH_CFG % (", ".join('"%s"' % t for t in targets), ", ".join(mps), " Export")
-    r = vlib.model_check(ctx, "PathSel", cfg, name="PathSel_" + "_".join(targets) + ("_p" if passive else ""), want_cases=True, workers=1)
+    r = vlib.model_check(ctx, "PathSel", cfg, name="PathSel_" + "_".join(targets) + ("_" + str(passive) if passive else ""), want_cases=True, workers=1)
     cases = r["cases"]
     ctx.extra["tlc_path_cases_exported"] = ctx.extra.get("tlc_path_cases_exported", 0) + len(cases)
     if sample > 1:
         cases = cases[ctx.seed % sample::sample]
     cf_ = ctx.path("path_cases_%d.jsonl" % len(ctx.mc_runs))
     open(cf_, "w").write("\n".join(cases) + "\n")
-    return gen(ctx, b, "path_%d" % len(ctx.mc_runs), ["path-replay", "-cases", cf_] + (["-passive"] if passive else []))
+    mode = ["-consume"] if passive == "consume" else (["-passive"] if passive else [])
+    return gen(ctx, b, "path_%d" % len(ctx.mc_runs), ["path-replay", "-cases", cf_] + mode)
 
 
 def run_C03(ctx):
@@ -579,6 +591,7 @@ F_SEQ = ("seq", ["-maxn", "8", "-wmax", "3"], ["-maxn", "24", "-wmax", "4"])
 F_WRITERS = ("writers", ["-maxn", "6", "-wmax", "3"], ["-maxn", "12", "-wmax", "4"])
 F_FAULT = ("fault", ["-maxn", "8", "-wmax", "3"], ["-maxn", "16", "-wmax", "4"])
 F_PRELOAD = ("preload", ["-maxn", "9", "-wmax", "4"], ["-maxn", "20", "-wmax", "4"])
+F_PRELOAD_NOBS = ("preload", ["-maxn", "7", "-wmax", "3", "-writer", "own-nobs"], ["-maxn", "14", "-wmax", "4", "-writer", "own-nobs"])
 
 TECH_BUILD = ("explicit TLA+ spec (FileBuild, HamtBuild) model-checked by TLC incl. every injected write failure; the real builders "
               "run on a storage wrapper that records every write-open/commit; each build's write sequence, parsed independently "
@@ -750,7 +763,7 @@ PLANS = {
              "length and preload of every enumerated HAMT (own and reference-written) is validated by TLC to be a prefix of "
              "- and on completion equal to - the pre-order of the walker's block/shard table (Inv_C20_*).",
              rule=RULE_MIX, technique=TECH_MIX),
-    "C06": P(run_mixed("C06", [F_PRELOAD], [("preload", "8,16", "8,16,256,1024")]),
+    "C06": P(run_mixed("C06", [F_PRELOAD, F_PRELOAD_NOBS], [("preload", "8,16", "8,16,256,1024")]),
              "for every enumerated file shape and HAMT: the preload reifier is run with no fault and with each single block "
              "of the entity unavailable; TLC validates loads = all blocks of the entity, none of the entries' blocks, and an "
              "error whenever a block is missing (Inv_C06_*).", rule=RULE_MIX, technique=TECH_MIX),
